@@ -30,11 +30,25 @@ def all_keys(desc):
 
 
 def write_trace(tracedir, desc, history, require=None, extra_meta=None, cpus_on="first",
-                per_thread_meta=None, make_cfg=True, finished=True):
+                per_thread_meta=None, make_cfg=True, finished=True, cpu_rng=None):
     """history: list of (clock, key, mcv, payload[, jumbo]).  Each thread of
     `desc` gets a stream (possibly with zero events).  loom_cpus are carried
     by the first thread of the loom (cpus_on='first') or by every thread
-    ('all')."""
+    ('all'); 'shuffled': by the first thread, in an order drawn from cpu_rng;
+    'split': spread over the threads of the loom in pieces drawn from cpu_rng,
+    each piece in its own order (the union is the whole list)."""
+    import random as _random
+    cpu_rng = cpu_rng or _random.Random(0)
+    split = {}
+    if cpus_on == "split":
+        for l in desc["looms"]:
+            keys = [(l["name"], p["pid"], t) for p in l["procs"] for t in p["threads"]]
+            cl = list(l["cpus"])
+            cpu_rng.shuffle(cl)
+            for k in keys:
+                split[k] = []
+            for c in cl:
+                split[cpu_rng.choice(keys)].append(c)
     per = {}
     for h in history:
         clock, key, mcv = h[0], h[1], h[2]
@@ -46,7 +60,14 @@ def write_trace(tracedir, desc, history, require=None, extra_meta=None, cpus_on=
         for p in l["procs"]:
             for t in p["threads"]:
                 key = (l["name"], p["pid"], t)
-                cpus = l["cpus"] if (first or cpus_on == "all") else None
+                if cpus_on == "split":
+                    cpus = split[key] or None
+                elif cpus_on == "shuffled":
+                    cpus = list(l["cpus"]) if first else None
+                    if cpus:
+                        cpu_rng.shuffle(cpus)
+                else:
+                    cpus = l["cpus"] if (first or cpus_on == "all") else None
                 first = False
                 meta = obs.thread_meta(t, p["pid"], l["name"], app_id=p.get("appid", 1), cpus=cpus,
                                        require=require, rank=p.get("rank"), nranks=p.get("nranks"),
